@@ -15,9 +15,9 @@ META = {
     "engine": "E1 runtime scenario engine",
     "rule": (
         "seeded random scenarios: 0-12 payloads and 0-4 services per flavour; argument lists empty / positional "
-        "only / keyword only / mixed, with mutable markers; submission before start (in 40 % of the scenarios by 2-4 threads at the same time), right after `running`, and "
+        "only / keyword only / mixed, with mutable markers; submission before start (a quarter of those adopt the very same callable two or three times; in 40 % of the scenarios by 2-4 threads at the same time), right after `running`, and "
         "after 10+ polling cycles; from an outside thread, from thread / asyncio / trio payloads, in bursts without "
-        "a checkpoint, through chains three deep and from executed payloads; services (of classes decorated directly, plain subclasses, classes with falsy instances, subclasses decorated again with the same or the other coroutine flavour) created before start, by the "
+        "a checkpoint, through chains three deep and from executed payloads; services (of classes decorated directly, plain subclasses, classes with falsy instances, classes whose instances all compare equal, subclasses decorated again with the same or the other coroutine flavour) created before start, by the "
         "driver, inside payloads, and as replacements for finished, garbage-collected services within one polling "
         "cycle; payloads that wait on a gate opened only after adopt returned (adopt must not wait for them); "
         "kind=storm: 40-130 services created (and some dropped) by 2-3 threads while the accept loop polls every 10-20 ms, with delay "
@@ -75,6 +75,9 @@ def gen_steady(rnd, spec):
         if how == "queued":
             p = leaf(rnd, new_id())
             p["when"] = "queued"
+            if rnd.random() < 0.25:
+                # the same callable adopted two or three times (without arguments): that many runs
+                p["repeat"], p["args"], p["kwargs"], p["program"] = rnd.choice([2, 3]), [], {}, [["sleep", 0.01]]
             gen["payloads"].append(p)
             expected.append(p["id"])
         elif how in ("outside", "late"):
@@ -123,7 +126,7 @@ def gen_steady(rnd, spec):
         s = {"id": sid, "flavour": flavour, "program": rnd.choice([[["beat", 0.02, None]], [["sleep", 0.01]]]) if flavour != "threading" else [["block"]]}
         # the class of the service: decorated directly, a plain subclass of that, one whose instances are falsy (an empty
         # container), or a subclass that is declared a service once more - of the same or of the other coroutine flavour
-        s["shape"] = rnd.choice(["plain", "plain", "subclass", "falsy", "redecorated"])
+        s["shape"] = rnd.choice(["plain", "plain", "subclass", "falsy", "redecorated", "valued", "valued"])
         if s["shape"] == "redecorated" and flavour in common.COROUTINE and rnd.random() < 0.5:
             s["base_flavour"] = "trio" if flavour == "asyncio" else "asyncio"
         where = rnd.choice(["before", "driver", "late", "inside"])
@@ -166,7 +169,7 @@ def gen_steady(rnd, spec):
     script.append(["sleep", delay * 12])  # 10+ polling cycles
     script += late
     script.append(["sleep", 0.35 + delay * 14])
-    script.append(["quiesce"])
+    script.append(["quiesce", 0.5, 10.0])
     gen["script"] = script
     return {"watchdog": 40, "inject": common.inject_conf(rnd, 0.7), "generations": [gen], "meta": {"kind": "steady", "expected": expected, "dropped": dropped}}
 
@@ -236,7 +239,7 @@ def gen_idle(rnd, spec):
         else:
             script += [["adopt", k] for k in kids]
         script.append(["sleep", 0.2])
-    script += [["sleep", 0.6], ["quiesce"]]
+    script += [["sleep", 0.6], ["quiesce", 0.5, 10.0]]
     gen["script"] = script
     return {"watchdog": 30, "inject": common.inject_conf(rnd, 0.5), "generations": [gen], "meta": {"kind": "steady", "expected": expected, "idle": True}}
 
@@ -263,7 +266,7 @@ def gen_storm(rnd, spec):
         script.append(["thread", ops])
     dropped = {op[1] for step in script if step[0] == "thread" for op in step[1] if op[0] == "drop_service"}
     expected = [e for e in expected if e[4:] not in dropped]  # a dropped service may or may not have been started
-    script += [["sleep", 1.2], ["quiesce"]]
+    script += [["sleep", 1.2], ["quiesce", 0.5, 10.0]]
     gen["script"] = script
     conf = common.inject_conf(rnd, 1.0)
     conf["p_yield"] = 0.5
@@ -276,7 +279,7 @@ def gen_known(rnd, spec):
     gen["payloads"].append({"id": "kid", "flavour": "trio", "program": [["sleep", 0.01]], "cleanup": {"kind": "none"}})
     gen["payloads"].append({"id": "inner", "flavour": "asyncio", "executed": True, "program": [["adopt", "kid"], ["return", "str"]], "cleanup": {"kind": "none"}})
     gen["payloads"].append({"id": "outer", "flavour": "trio", "program": [["sleep", 0.05], ["execute", "inner"], ["beat", 0.02, None]], "cleanup": {"kind": "none"}})
-    gen["script"] = [["wait_running", 10], ["adopt", "outer"], ["sleep", 1.0], ["quiesce"]]
+    gen["script"] = [["wait_running", 10], ["adopt", "outer"], ["sleep", 1.0], ["quiesce", 0.5, 10.0]]
     return {"watchdog": 6, "inject": None, "generations": [gen], "meta": {"kind": "known", "expected": ["kid", "outer"]}}
 
 
@@ -341,9 +344,12 @@ def judge(case, run, result):
             before = [e for e in starts if e["seq"] < quiet["seq"]]
             sp = specs[pid]
             what = "service" if pid.startswith("svc:") else "payload"
-            if len(starts) != 1 or len(before) != 1:
-                problems.append(("%s %s (%s) was started %d time(s) (%d at quiescence), expected exactly once"
-                                 % (what, pid, sp["flavour"], len(starts), len(before)), None))
+            times = sp.get("repeat", 1)
+            if times > 1:
+                result.count("payloads_adopted_repeatedly_before_start")
+            if len(starts) != times or len(before) != times:
+                problems.append(("%s %s (%s) was started %d time(s) (%d at quiescence), expected exactly %s"
+                                 % (what, pid, sp["flavour"], len(starts), len(before), "once" if times == 1 else "%d times: it was adopted %d times" % (times, times)), None))
                 continue
             st = starts[0]
             if st["flavour"] != sp["flavour"]:
@@ -464,7 +470,8 @@ def finish(total, tier):
             "gated_adopts_returned_before_payload_released", "scenarios_with_idle_asyncio_loop", "service_storms", "scenarios_with_bursts", "scenarios_with_replaced_services",
             "window_adopts_judged", "adopts_in_shutdown_window_inside", "adopts_in_shutdown_window_outside",
             "scenarios_with_concurrent_registration_before_start", "forced_redecorated_schedules_checked"]
-    need += ["services_of_shape_%s_started_exactly_once" % k for k in ("plain", "subclass", "falsy", "redecorated")]
+    need += ["services_of_shape_%s_started_exactly_once" % k for k in ("plain", "subclass", "falsy", "redecorated", "valued")]
+    need += ["payloads_adopted_repeatedly_before_start"]
     for name in need:
         if not total.counters.get(name) and not total.violations:
             total.inconc("monitor never observed: " + name)
